@@ -78,8 +78,10 @@ type model struct {
 	renderLost        map[string]bool // style ids seen undefined on a document rendered from a saved base (stays lost over reopens)
 	extendAfterRender bool
 	notes             int
-	listsSinceOpen    int    // list ops on the current document object since it was opened
-	startNS           string // namespace scheme of the numbering/notes parts of the package the history started from
+	listsSinceOpen    int             // list ops on the current document object since it was opened
+	startNS           string          // namespace scheme of the numbering/notes parts of the package the history started from
+	startStylesNS     string          // namespace scheme of the styles part of the package the history started from
+	partStyles        map[string]bool // ids the styles part of the opened document is known to define: at open, plus every judged save since
 
 	// the package the current document object was opened from defines no style at all (no styles part, an empty one, or one without w:style)
 	noStylesAtOpen bool
@@ -121,7 +123,7 @@ func (m *model) newDoc() {
 	m.preNum, m.preFn, m.preEn, m.preStyles = nil, nil, nil, nil
 	m.rendered, m.renderOfSaved, m.lastSaveStyles = false, false, nil
 	m.lateRendered, m.renderLost = map[string]bool{}, map[string]bool{}
-	m.listsSinceOpen, m.startNS = 0, ""
+	m.listsSinceOpen, m.startNS, m.startStylesNS, m.partStyles = 0, "", "", nil
 	m.noStylesAtOpen, m.tocOps = false, 0
 }
 
@@ -177,12 +179,14 @@ func (m *model) openedFrom(o *obs, fresh bool) {
 	m.removed = map[string]bool{} // the registry of an opened document is the predefined set again
 	m.reg = map[string]string{}
 	m.preStyles = map[string]bool{}
+	m.partStyles = map[string]bool{}
 	m.noStylesAtOpen = o != nil && len(o.Styles) == 0
 	if o != nil {
 		m.base = map[string]string{}
 		for id, d := range o.Styles {
 			m.reg[id] = d.Type
 			m.preStyles[id] = true
+			m.partStyles[id] = true
 			if b, ok := d.Fields["basedOn"]; ok {
 				m.base[id] = b
 			}
